@@ -4,10 +4,11 @@ use libfuzzer_sys::fuzz_target;
 use vcore::fuzzdec;
 
 fuzz_target!(|data: &[u8]| {
+    fuzzdec::init();
     if let Ok(text) = std::str::from_utf8(data) {
         if let Some(f) = fuzzdec::run_c18_text(text) {
             fuzzdec::report_text("C18", text, &f);
-            panic!("C18 violated: {}: {}", f.sig, f.msg);
+            fuzzdec::fail("C18", &f);
         }
     }
 });
